@@ -20,6 +20,7 @@ import (
 	"errors"
 	"fmt"
 	"regexp/syntax"
+	"sort"
 	"sync"
 )
 
@@ -156,6 +157,18 @@ func (d *typeDictionary) typedefs() []*Typedef {
 			tds = append(tds, td)
 		}
 	}
+	// The order in which typedefs are resolved decides which member of a
+	// cycle of typedefs is reported: let it depend on the sources only,
+	// not on map order.
+	keys := make(map[*Typedef]string, len(tds))
+	for _, td := range tds {
+		root := ""
+		if m := RootNode(td); m != nil {
+			root = m.FullName()
+		}
+		keys[td] = root + "\x00" + NodePath(td) + "\x00" + Source(td)
+	}
+	sort.Slice(tds, func(i, j int) bool { return keys[tds[i]] < keys[tds[j]] })
 	return tds
 }
 
